@@ -32,6 +32,13 @@ ATTRS = {
     'file': dict({'encoding': ('str', None)},
                  **dict(META_ATTRS, **DIFF_ATTRS)),
 }
+# what the constructors of the content-section classes take (from the docs)
+SECTION_ATTRS = {
+    'DiffXPreambleSection': ('content', 'encoding', 'indent', 'line_endings',
+                             'mimetype'),
+    'DiffXMetaSection': ('content', 'encoding', 'format'),
+    'DiffXFileDiffSection': ('content', 'encoding', 'line_endings', 'type'),
+}
 # names that exist on the objects but are NOT options or content attributes
 NON_ATTRS = ['bogus', 'files', 'changes', 'options', 'subsections', '_level',
              '_content',
